@@ -25,6 +25,9 @@ pub enum Kind {
     Big72,
     Al32,
     TrackedBig,
+    /// zero-sized `()` elements with N*M up to 2^63 (more elements than isize::MAX): by-reference forms only, the arrays
+    /// occupy no memory and are only ever handled through references
+    HugeUnit,
 }
 
 #[derive(Clone, Debug, Serialize, Deserialize, PartialEq, Eq, Hash)]
@@ -180,6 +183,72 @@ where
     Ok(())
 }
 
+/// By-reference regrouping of zero-sized arrays whose element count does not fit in isize. Nothing is ever read or written:
+/// only addresses, lengths and extents are compared.
+fn huge_unit_case<N, M>(form: u8) -> Result<(), String>
+where
+    N: ArrayLength + Mul<M>,
+    M: ArrayLength,
+    Prod<N, M>: ArrayLength + Div<N>,
+    Quot<Prod<N, M>, N>: ArrayLength,
+{
+    let (n, m) = (N::USIZE, M::USIZE);
+    let total = (n as u128) * (m as u128);
+    if total > usize::MAX as u128 || core::mem::size_of::<GenericArray<(), N>>() != 0 {
+        return Err("harness: not a zero-sized pair that fits usize".into());
+    }
+    let total = total as usize;
+    let mut backing = [0u64; 2];
+    let base = backing.as_mut_ptr() as usize;
+    // M zero-sized rows, all at `base`: a slice of zero-sized elements may have any length
+    let rows: &mut [GenericArray<(), N>] = unsafe { core::slice::from_raw_parts_mut(base as *mut GenericArray<(), N>, m) };
+    if form == 1 {
+        let nested: &GenericArray<GenericArray<(), N>, M> = GenericArray::from_slice(rows);
+        let flat: &GenericArray<(), Prod<N, M>> = nested.flatten();
+        if flat as *const _ as usize != base || flat.len() != total || flat.as_slice().len() != total || core::mem::size_of_val(flat) != 0 {
+            return Err(format!("&flatten of {m} rows of {n} zero-sized elements: address {:#x} (source {:#x}), {} elements, expected {total}", flat as *const _ as usize, base, flat.len()));
+        }
+        let back: &GenericArray<GenericArray<(), N>, Quot<Prod<N, M>, N>> = flat.unflatten();
+        if back as *const _ as usize != base || back.len() != m {
+            return Err(format!("&unflatten of {total} zero-sized elements into rows of {n}: {} rows, expected {m}", back.len()));
+        }
+    } else {
+        let nested: &mut GenericArray<GenericArray<(), N>, M> = GenericArray::from_mut_slice(rows);
+        let flat: &mut GenericArray<(), Prod<N, M>> = nested.flatten();
+        if flat as *const _ as usize != base || flat.len() != total || flat.as_mut_slice().len() != total {
+            return Err(format!("&mut flatten of {m} rows of {n} zero-sized elements: {} elements, expected {total}", flat.len()));
+        }
+        let back: &mut GenericArray<GenericArray<(), N>, Quot<Prod<N, M>, N>> = flat.unflatten();
+        if back as *const _ as usize != base || back.len() != m {
+            return Err(format!("&mut unflatten of {total} zero-sized elements into rows of {n}: {} rows, expected {m}", back.len()));
+        }
+    }
+    Ok(())
+}
+
+/// (inner, outer) lengths of the huge zero-sized cases
+pub const HUGE_PAIRS: &[(usize, usize)] = &[(1 << 32, 1 << 31), (1 << 63, 1), (1, 1 << 63), (1 << 31, 1 << 31), (1 << 33, 1 << 30), (1 << 62, 2), (3, 1 << 61), (1 << 40, 1 << 20), (1 << 16, 1 << 16)];
+
+fn exec_huge(case: &Case, acc: &mut Acc) -> Result<(), String> {
+    use generic_array::typenum::*;
+    let f = case.form.clamp(1, 2);
+    match (case.n, case.m) {
+        (4294967296, 2147483648) => huge_unit_case::<U4294967296, U2147483648>(f),
+        (9223372036854775808, 1) => huge_unit_case::<U9223372036854775808, U1>(f),
+        (1, 9223372036854775808) => huge_unit_case::<U1, U9223372036854775808>(f),
+        (2147483648, 2147483648) => huge_unit_case::<U2147483648, U2147483648>(f),
+        (8589934592, 1073741824) => huge_unit_case::<U8589934592, U1073741824>(f),
+        (4611686018427387904, 2) => huge_unit_case::<U4611686018427387904, U2>(f),
+        (3, 2305843009213693952) => huge_unit_case::<U3, U2305843009213693952>(f),
+        (1099511627776, 1048576) => huge_unit_case::<U1099511627776, U1048576>(f),
+        (65536, 65536) => huge_unit_case::<U65536, U65536>(f),
+        _ => return Ok(()),
+    }?;
+    acc.count(true, case);
+    acc.class("huge_zero_sized_by_reference");
+    Ok(())
+}
+
 fn exec_typed<T: Elem>(case: &Case, acc: &mut Acc) -> Result<(), String> {
     registry::reset();
     let (n, m, form, salt) = (case.n, case.m, case.form, case.salt);
@@ -213,6 +282,7 @@ pub fn exec(case: &Case, acc: &mut Acc) -> Result<(), String> {
         Kind::Big72 => exec_typed::<harness::registry::Big72>(case, acc),
         Kind::Al32 => exec_typed::<harness::registry::Al32>(case, acc),
         Kind::TrackedBig => exec_typed::<harness::registry::TrackedBig>(case, acc),
+        Kind::HugeUnit => exec_huge(case, acc),
     }
 }
 
@@ -242,6 +312,11 @@ pub fn main() {
             }
         }
     }
+    for &(n, m) in HUGE_PAIRS {
+        for form in 1..3u8 {
+            g.push(Case { kind: Kind::HugeUnit, n, m, form, salt: 0 });
+        }
+    }
     let acc = engine::parallel(&args, PROP, |w, workers, acc| {
         for (i, c) in g.iter().enumerate() {
             if i % workers == w {
@@ -256,7 +331,7 @@ pub fn main() {
         Report {
             prop: PROP,
             level: "exploration",
-            rule: "case = (element kind, inner length N, outer length M, form, seeded values): all (N, M) in 0..=6 x 0..=6 plus (1,1024), (1024,1), (16,64), (64,16), (3,341), (341,3), (32,32), (2,500), (1000,0), (0,1000), (7,9); owned, & and &mut forms of flatten and (N >= 1) of unflatten; kinds u8, u64, (), drop-tracked, zero-sized tracked, 72-byte [u64;9], 32-byte-aligned, 96-byte drop-tracked. \
+            rule: "case = (element kind, inner length N, outer length M, form, seeded values): all (N, M) in 0..=6 x 0..=6 plus (1,1024), (1024,1), (16,64), (64,16), (3,341), (341,3), (32,32), (2,500), (1000,0), (0,1000), (7,9); owned, & and &mut forms of flatten and (N >= 1) of unflatten; kinds u8, u64, (), drop-tracked, zero-sized tracked, 72-byte [u64;9], 32-byte-aligned, 96-byte drop-tracked; plus by-reference flatten/unflatten of zero-sized () arrays with N*M up to 2^63 - (2^32,2^31), (2^63,1), (1,2^63), (2^33,2^30), (2^62,2), (3,2^61) ... - handled through references only (addresses, lengths and extents compared, nothing read). \
                    Oracle: flat[i*N + j] == nested[i][j] by value and identity; unflatten(flatten(x)) == x and the converse; by-reference forms return the source's address and size_of_val; writes through the &mut regrouped view are read back through the original; drop registry balanced. \
                    non-trivial = N*M >= 2 with N >= 2 or M >= 2; distinct = distinct case tuples",
             exhaustive: false,
